@@ -7,6 +7,9 @@ d = "/verif/seeded/%s/%s" % (pid, name)
 def sh(c, cwd=None, timeout=3600):
     p = subprocess.run(c, shell=True, cwd=cwd, stdout=subprocess.PIPE, stderr=subprocess.STDOUT, text=True, timeout=timeout)
     return p.returncode, p.stdout
+import fcntl
+_lock = open("/tmp/mut/repo.lock", "w")
+fcntl.flock(_lock, fcntl.LOCK_EX)
 assert sh("git diff --quiet", "/repo")[0] == 0, "/repo dirty"
 rc, out = sh("git apply %s/patch.diff" % d, "/repo")
 if rc != 0:
